@@ -1,4 +1,5 @@
-CONSTANTS MAXLEN = 13  MAXREP = 6  CRLF = FALSE
+\* model check only (see gen/FileSplit_gen_thorough.cfg)
+CONSTANTS MAXLEN = 13  MAXREP = 6  CRLFLEN = 11
 SPECIFICATION Spec
 INVARIANTS C15_File ModelShape
 CHECK_DEADLOCK FALSE
